@@ -290,7 +290,7 @@ def round_(number, num_digits=0):
 
     num_digits = int(num_digits)
     if num_digits >= 0:  # round to the right side of the point
-        return float(Decimal(repr(number)).quantize(
+        return float(Decimal(repr(float(number))).quantize(
             Decimal(repr(pow(10, -num_digits))),
             rounding=ROUND_HALF_UP
         ))
@@ -304,7 +304,7 @@ def round_(number, num_digits=0):
 def _round(number, num_digits, rounding):
     num_digits = int(num_digits)
     quant = Decimal(f'1E{"+-"[num_digits >= 0]}{abs(num_digits)}')
-    return float(Decimal(repr(number)).quantize(quant, rounding=rounding))
+    return float(Decimal(repr(float(number))).quantize(quant, rounding=rounding))
 
 
 @excel_math_func
